@@ -342,6 +342,13 @@ fn mode_expand(args: &[String]) {
 // ---------------------------------------------------------------------------------------------
 // direct observation of the fmt literal parser (second inclusion of impl/src/fmt/parsing.rs)
 
+#[cfg(not(feature = "vc_int_fmt"))]
+pub fn canon_literal(_lit: &str) -> Result<Option<String>, PanicRec> {
+    // built without the direct inclusion of the literal parser (its internal AST did not match this harness)
+    Ok(None)
+}
+
+#[cfg(feature = "vc_int_fmt")]
 pub fn canon_literal(lit: &str) -> Result<Option<String>, PanicRec> {
     use crate::fmt_parsing_direct as p;
     guarded(|| {
@@ -416,6 +423,10 @@ pub fn canon_literal(lit: &str) -> Result<Option<String>, PanicRec> {
 }
 
 fn mode_fmtparse(_args: &[String]) {
+    if !cfg!(feature = "vc_int_fmt") {
+        eprintln!("harness built without vc_int_fmt");
+        std::process::exit(65);
+    }
     let stdin = io::stdin();
     let out = io::stdout();
     let mut out = io::BufWriter::new(out.lock());
@@ -511,6 +522,13 @@ pub fn flat_joint(ts: TokenStream) -> String {
     o
 }
 
+#[cfg(not(feature = "vc_int_args"))]
+fn mode_args(_args: &[String]) {
+    eprintln!("harness built without vc_int_args");
+    std::process::exit(65);
+}
+
+#[cfg(feature = "vc_int_args")]
 fn mode_args(_args: &[String]) {
     use syn::parse::Parser;
     use syn::punctuated::Punctuated;
